@@ -212,6 +212,13 @@ class History:
             R = haar_so3(r) if r.random() < 0.7 else onp.eye(3)
         else:
             R = inplane_rot(r.uniform(0, 2 * math.pi)) if r.random() < 0.7 else onp.eye(3)
+        if self.kin == "sethhill":
+            # 2 (C^(1/4) - I) = Ee_target + eps_p  ->  U = C^(1/2) = (I + (Ee_target + eps_p)/2)^2
+            A = onp.eye(3) + 0.5 * (Ee_target + plastic_old)
+            A = 0.5 * (A + A.T)
+            if onp.min(onp.linalg.eigvalsh(A)) > 0.2:
+                return R @ (A @ A) - onp.eye(3)
+            return 0.5 * (Ee_target + plastic_old)          # not reachable with a positive stretch: an ordinary step instead
         F = R @ ref.expm_sym(Ee_target) @ plastic_old
         return F - onp.eye(3)
 
